@@ -59,6 +59,7 @@ APPEND = {
     "abe_policy/rights.rs": ["#[cfg(kani)] mod kani_h;"],
     "encrypted_header.rs": ["#[cfg(kani)] mod kani_h;"],
     "ae.rs": ["#[cfg(kani)] mod kani_h;"],
+    "ser.rs": ["#[cfg(kani)] mod kani_h;"],
     "api.rs": ["#[cfg(kani)] mod kani_h;"],
 }
 
